@@ -56,6 +56,8 @@ type deferRec struct {
 }
 
 type State struct {
+	appendCase int // 0: undetermined (ite), 1: in place, 2: reallocated (forked paths)
+	hints      []Term // sound strengthenings tried when the plain query is not decided (dense allocation)
 	fx    *FnExec
 	vals  map[ssa.Value]Term
 	tups  map[ssa.Value][]Term
@@ -138,6 +140,7 @@ func (st *State) clone() *State {
 		n.loopIters[k] = v
 	}
 	n.path = append([]string(nil), st.path...)
+	n.hints = append([]Term(nil), st.hints...)
 	return n
 }
 
@@ -324,6 +327,11 @@ func (st *State) snapshotHeap() map[string]Term {
 func (st *State) freshRef(hint string) Term {
 	r := st.fx.freshConst(hint, "Int")
 	st.assume("(> " + r + " " + st.alloc + ")")
+	// Addresses are unobservable except for equality, so every execution has a
+	// renaming in which an allocation takes the next unused address (no address
+	// between two watermarks is a phantom nobody allocated). Kept as a hint:
+	// added only when the plain query is not decided.
+	st.hints = append(st.hints, "(= "+r+" (+ "+st.alloc+" 1))")
 	st.assume("(<= (epoch " + r + ") " + r + ")")
 	st.alloc = r
 	return r
@@ -417,6 +425,7 @@ type Obligation struct {
 	Fn       string
 	Props    []string
 	Assumes  []Term
+	Hints    []Term // sound strengthenings (see State.hints)
 	Goal     Term
 	Path     string
 	Src      string
